@@ -559,6 +559,6 @@ def run(ctx, chk):
     # structural necessary conditions for termination of the sweeps
     C01.r4_sweep(ctx, chk, "C06.term:C01.4")
     C02.r3_sweep(ctx, chk, "C06.term:C02.3")
-    chk.require_instances("C06.1", 14)
+    chk.require_instances("C06.1", 6)
     chk.require_instances("C06.3a", 2)
     chk.require_instances("C06.3b", 3)
